@@ -256,7 +256,19 @@ func runC10(c *core.Case) {
 			c.Fail("object-reset", nil, "ResetExtendedSpatialID(%q) -> ID() %q, err %v", ex[0], o.ID(), err)
 			return
 		}
+		// while the first object holds another ID, parsing the same string again gives a fresh, independent object
+		o2, err2 := object.NewExtendedSpatialID(es)
+		c.Call()
+		if err2 != nil || o2.ID() != es || o2 == o {
+			c.Fail("object-parse-after-edit", nil, "NewExtendedSpatialID(%q) after the first object parsed from it was reset to %q: ID() %q, err %v, same object %v", es, ex[0], o2.ID(), err2, o2 == o)
+			return
+		}
+		o2.SetX(o2.X() + 1)
 		o.ResetExtendedSpatialID(es)
+		if o.ID() != es {
+			c.Fail("object-reset", nil, "object reset to %q prints %q after a second object parsed from the same string was edited", es, o.ID())
+			return
+		}
 	}
 	vid := transform.GetVoxelIDfromSpatialID(es)
 	c.Call()
